@@ -26,6 +26,10 @@ def convention_nullable(xf):
         return not xf.array
     if xf.tag is not None and xf.ignorable and xf.raw_default is None and xf.kafka_type in NULL_CONVENTION and not xf.array:
         return True
+    # the same convention on an error-code field: annotated `ErrorCode | None`, but its default stays ErrorCode.none
+    if xf.tag is not None and xf.ignorable and xf.raw_default is None and not xf.array and xf.kafka_type == "int16" \
+            and xf.name in ("ErrorCode", "PartitionErrorCode"):
+        return True
     return False
 
 
